@@ -120,7 +120,7 @@ func (e *env) idOf(v reflect.Value) string {
 }
 
 func (e *env) readPoint(obj any, typeName string, pt *sdl.Point) []string {
-	v := fieldAt(obj, typeName, pt.Embed, pt.Field)
+	v := fieldAt(obj, typeName, pt.Embed, pt.GoName())
 	if !v.IsValid() {
 		return []string{"?missing-field"}
 	}
@@ -205,7 +205,7 @@ func (e *env) newObject(typeName string, h *simrt.Handle) any {
 func (e *env) frameLeaves(obj any, t *sdl.Type, fr *sdl.Frame) []reflect.Value {
 	top := reflect.ValueOf(obj).Elem()
 	switch fr.Kind {
-	case "untagged", "unexported", "foreign":
+	case "untagged", "unexported", "foreign", "lookalike":
 		return []reflect.Value{rw(top.FieldByName(fr.Field))}
 	case "named":
 		return []reflect.Value{rw(rw(top.FieldByName(fr.Field)).FieldByName("X"))}
